@@ -1,9 +1,176 @@
-import Okane.Drv.IOUtil
-/-! Driver commands for C09 (stub: replaced when the property's streams are built). -/
+import Okane.Drv.Core
+import Okane.Model.Query
+/-!
+Driver for C09.  Input: the output lines of `hx c09`
+  `<id> tree=(...) pdb=((P (d Y M D) TARGET neg mant scale COMMODITY) ...) result=ok q=(((d Y M D) A B <res>) ...)`
+For every query the model's `Query.eval "1 A" {date, exchange B}` is computed under several pop orders and
+neighbour orders (the parameters of `Price.priceTable`); the implementation's answer must be one of them.
+Output: `<id> agree q=<n> ties=<k> inexact=<k> maxsteps=<n>` | `<id> DISAGREE ...` | `<id> skip ...`.
+-/
 namespace Okane.Drv.C09
+open Okane Okane.Drv Okane.Price Okane.Query Sexp
 
-def main (args : List String) : IO Unit := do
-  let _ := args
-  pure ()
+/-- `(P (d Y M D) TARGET neg mant scale COMMODITY)` -/
+structure DbLine where
+  date : Date
+  target : String
+  rate : Rat
+  commodity : String
+
+def decDbLine : Sexp → Option DbLine
+  | .list [.atom "P", d, t, n, m, s, c] => do
+    let d ← decDate d; let t ← t.str?; let r ← decRat n m s; let c ← c.str?
+    pure ⟨d, t, r, c⟩
+  | _ => none
+
+def decDb : Sexp → Option (List DbLine)
+  | .list xs => xs.mapM decDbLine
+  | _ => none
+
+/-- `load_price_db`: `ensure(target)`, `ensure(rate.commodity)`, one `PriceEvent{1 target, rate}` per line. -/
+def loadDb (store : Store) : List DbLine → Store × List (PriceEvent String)
+  | [] => (store, [])
+  | l :: rest =>
+    let (t, s1) := store.ensure l.target
+    let (c, s2) := s1.ensure l.commodity
+    let (s3, evs) := loadDb s2 rest
+    (s3, ⟨l.date, ⟨1, t⟩, ⟨l.rate, c⟩⟩ :: evs)
+
+/-! ### pop orders and neighbour orders tried by the driver -/
+
+def distLt (a b : Dist) : Bool := decide (a < b)
+
+/-- index of the first maximal element (a max-heap pops a greatest element). -/
+def argBest (better : Dist → Dist → Bool) : List (Item String) → Nat
+  | [] => 0
+  | x :: xs =>
+    (xs.foldl (fun (acc : Nat × Nat × Dist) it =>
+      let (i, best, bd) := acc
+      if better it.dist bd then (i + 1, i + 1, it.dist) else (i + 1, best, bd)) (0, 0, x.dist)).2.1
+
+def pickMax : Nat → List (Item String) → Nat := fun _ q => argBest (fun a b => distLt b a) q
+def pickMin : Nat → List (Item String) → Nat := fun _ q => argBest (fun a b => distLt a b) q
+def pickFifo : Nat → List (Item String) → Nat := fun _ _ => 0
+def pickLifo : Nat → List (Item String) → Nat := fun _ q => q.length - 1
+/-- greatest element, the *last* among equals -/
+def pickMaxLast : Nat → List (Item String) → Nat := fun _ q => argBest (fun a b => !distLt a b) q
+
+def ordId : String → List (String × PEntry) → List (String × PEntry) := fun _ l => l
+def ordRev : String → List (String × PEntry) → List (String × PEntry) := fun _ l => l.reverse
+
+def fuel : Nat := 200000
+
+def cfgs : List (Cfg String) :=
+  [⟨fuel, pickMax, ordId⟩, ⟨fuel, pickMax, ordRev⟩, ⟨fuel, pickMaxLast, ordId⟩, ⟨fuel, pickMaxLast, ordRev⟩,
+   ⟨fuel, pickMin, ordId⟩, ⟨fuel, pickMin, ordRev⟩, ⟨fuel, pickFifo, ordId⟩, ⟨fuel, pickLifo, ordRev⟩]
+
+def leS (a b : String) : Bool := a ≤ b
+
+def envOf (cfg : Cfg String) (repo : Builder String) : Env String String := ⟨cfg, repo, leS, leS⟩
+
+/-- the processed ledger plus its price repository, as `report::process` with a price db builds it. -/
+structure World where
+  st : ProcState
+  store : Store
+  repo : Builder String
+
+def mkWorld (entries : List Entry) (db : List DbLine) : Except String World :=
+  match process entries with
+  | .ok st =>
+    let (store, dbEvents) := loadDb st.ctx.commodities db
+    match buildFrom st.events dbEvents with
+    | .ok b => .ok ⟨{ st with ctx := { st.ctx with commodities := store } }, store, build b⟩
+    | .panic s => .error ("model panic: " ++ s)
+    | _ => .error "model: builder failed"
+  | .err (i, _) => .error s!"model rejects entry {i}"
+  | .panic s => .error ("model panic: " ++ s)
+  | .fuelOut => .error "model fuel"
+
+inductive Res where
+  | ok (a : Amount String)
+  | err (kind : String)
+  | crash (what : String)
+
+def Res.toStr : Res → String
+  | .ok a => "(ok " ++ (encAmountR a).toStr ++ ")"
+  | .err k => "(err " ++ k ++ ")"
+  | .crash w => "(crash " ++ w ++ ")"
+
+def resOfOutcome : Outcome (QueryErr String) (Amount String) → Res
+  | .ok a => .ok a
+  | .err (.commodityNotFound _) => .err "CommodityNotFound"
+  | .err (.evalFailed _) => .err "EvalFailed"
+  | .err (.conversionFailure _) => .err "CommodityConversionFailure"
+  | .panic s => .crash s
+  | .fuelOut => .crash "fuelOut"
+
+def decRes : Sexp → Option Res
+  | .list [.atom "ok", a] => (decAmount a).map .ok
+  | .list [.atom "err", .atom k] => some (.err k)
+  | _ => none
+
+def amountClose (a b : Amount String) : Bool :=
+  let x := sortAmount a; let y := sortAmount b
+  x.length == y.length && (x.zip y).all fun (p, q) => p.1 == q.1 && ratClose p.2 q.2
+
+/-- 0 = differ, 1 = close (within 1e-18 relative), 2 = equal -/
+def resCmp : Res → Res → Nat
+  | .ok a, .ok b => if amountEq a b then 2 else if amountClose a b then 1 else 0
+  | .err a, .err b => if a == b then 2 else 0
+  | _, _ => 0
+
+def one : PDec := ⟨false, 1, 0, none⟩
+
+def modelEval (w : World) (cfg : Cfg String) (date : Date) (a b : String) : Res :=
+  resOfOutcome (Query.eval (envOf cfg w.repo) w.store (.amt one a) date (some b))
+
+/-- number of loop iterations a table computation takes (for the fuel-bound statistics): smallest fuel
+among a few candidates that suffices. -/
+def stepsNeeded (w : World) (date : Date) (b : String) : Nat :=
+  let cands := [8, 16, 32, 64, 128, 256, 1024, 4096, fuel]
+  (cands.find? fun f => (priceTable ⟨f, pickMax, ordId⟩ w.repo b date).isOk).getD (fuel + 1)
+
+structure Tally where
+  n : Nat := 0
+  ties : Nat := 0
+  inexact : Nat := 0
+  bad : Option String := none
+
+def checkQuery (w : World) (t : Tally) : Sexp → Tally
+  | .list [d, a, b, r] =>
+    match decDate d, a.str?, b.str?, decRes r with
+    | some date, some a, some b, some impl =>
+      let ms := cfgs.map fun cfg => modelEval w cfg date a b
+      let best := (ms.map (resCmp impl)).foldl max 0
+      let first := ms.headD (.crash "none")
+      let tie := ms.any fun m => resCmp first m != 2
+      if best == 0 then
+        { t with n := t.n + 1, bad := t.bad.orElse fun _ => some s!"at=({date.fmtHyphen} {a} {b}) impl={impl.toStr} model={first.toStr}" }
+      else
+        { t with n := t.n + 1, ties := t.ties + (if tie then 1 else 0), inexact := t.inexact + (if best == 1 then 1 else 0) }
+    | _, _, _, _ => { t with bad := some "undecodable query record" }
+  | _ => { t with bad := some "undecodable query record" }
+
+def step (line : String) : String :=
+  let (id, fs) := splitFields line
+  match field fs "tree", field fs "pdb", field fs "result", field fs "q" with
+  | some t, some pdb, some result, some q =>
+    if result != "ok" then s!"{id} skip impl={result}" else
+    match decEntries t, (Sexp.parse pdb).bind decDb, Sexp.parse q with
+    | some es, some db, some (.list qs) =>
+      match mkWorld es db with
+      | .error e => s!"{id} DISAGREE implementation processed the ledger, {e}"
+      | .ok w =>
+        let tally := qs.foldl (checkQuery w) {}
+        match tally.bad with
+        | some b => s!"{id} DISAGREE {b}"
+        | none =>
+          let targets := (qs.filterMap fun | .list [d, _, b, _] => (do let d ← decDate d; let b ← b.str?; pure (d, b)) | _ => none)
+          let steps := (targets.take 8).foldl (fun m db => max m (stepsNeeded w db.1 db.2)) 0
+          s!"{id} agree q={tally.n} ties={tally.ties} inexact={tally.inexact} maxsteps={steps}"
+    | _, _, _ => s!"{id} undecodable"
+  | _, _, _, _ => s!"{id} bad-case"
+
+def main (_args : List String) : IO Unit := forEachLine step
 
 end Okane.Drv.C09
